@@ -83,6 +83,33 @@ async fn round_trip_client(addr: SocketAddr, certs: &Certs, topic: &str, dl: Dur
     }
 }
 
+/// A `Client` opens a subscriber on the stalled topic (left running, whatever becomes of it)
+/// and then a publisher/subscriber pair on another topic: the second must work.
+async fn same_client_probe(addr: SocketAddr, certs: &Certs, stalled: &str, other: &str, dl: Duration) -> Result<(), String> {
+    let cl = client(addr, certs).await?;
+    let b = cl.subscriber(stalled).with_decoder(StringCodec);
+    let waiting = tokio::spawn(async move { b.open().await.map_err(|e| e.to_string()) });
+    tokio::time::sleep(Duration::from_millis(150)).await;
+    let fut = async {
+        let mut s = cl.subscriber(other).with_decoder(StringCodec).open().await.map_err(|e| format!("subscriber open: {e}"))?;
+        let mut p = cl.publisher(other).with_encoder(StringCodec).open().await.map_err(|e| format!("publisher open: {e}"))?;
+        loop {
+            p.send("probe".to_string()).await.map_err(|e| format!("send: {e}"))?;
+            match tokio::time::timeout(Duration::from_millis(50), s.next()).await {
+                Ok(Some(Ok(_))) => return Ok(()),
+                Ok(o) => return Err(format!("subscriber ended: {:?}", o.map(|x| x.map(|_| ()).map_err(|e| e.to_string())))),
+                Err(_) => {}
+            }
+        }
+    };
+    let r = match tokio::time::timeout(dl, fut).await {
+        Ok(r) => r,
+        Err(_) => Err("a publisher/subscriber pair on the other topic could not be opened and exchange a message before the deadline".into()),
+    };
+    waiting.abort();
+    r
+}
+
 pub async fn run_case(certs: &Certs, c: &Case) -> Outcome {
     match tokio::time::timeout(Duration::from_secs(150), run_inner(certs, c)).await {
         Ok(o) => o,
@@ -266,6 +293,9 @@ async fn run_inner(certs: &Certs, c: &Case) -> Outcome {
         }
     }
     drop(hung_stream);
+    if let Err(e) = same_client_probe(addr, certs, "/stalled/aaa", "/healthy/fff", dl).await {
+        return Outcome::fail("other-topic-blocked-for-a-client-waiting-on-the-stalled-topic", format!("{ctx_s}: a client-library Client first opens a subscriber on the stalled topic, then uses topic B: {e}"));
+    }
     if let Err(e) = round_trip_client(addr, certs, "/healthy/ccc", dl).await {
         return Outcome::fail("other-topic-blocked-client", format!("{ctx_s}: {e}"));
     }
@@ -296,7 +326,7 @@ pub fn strategy() -> BoxedStrategy<Case> {
 }
 
 pub fn run(ctx: &mut Ctx) {
-    ctx.rule = "fresh real server per case; topic A: a raw subscriber that stops reading after 0-3 frames, 1-3 publishers flooding 64 KiB messages until they are back-pressured themselves (the observable sign the router is stuck), b in 0..90 registrations on A before the stall and n in {0, 50, 99..104, 150, 260, 400, 520, random} after it (generated kinds, spread over several connections); then topic B: a raw publisher/subscriber pair and a client-library publisher/subscriber pair must register and exchange a message within 12 s (a control exchange on B succeeded in the same case before the stall); non-trivial = the stall was reached and more registrations than the router's queue holds (101) were made after it".into();
+    ctx.rule = "fresh real server per case; topic A: a raw subscriber that stops reading after 0-3 frames, 1-3 publishers flooding 64 KiB messages until they are back-pressured themselves (the observable sign the router is stuck), b in 0..90 registrations on A before the stall and n in {0, 50, 99..104, 150, 260, 400, 520, random} after it (generated kinds, spread over several connections); then topic B: a raw publisher/subscriber pair and a client-library publisher/subscriber pair - also on a Client that has just asked for a subscriber on the stalled topic - must register and exchange a message within 12 s (a control exchange on B succeeded in the same case before the stall); non-trivial = the stall was reached and more registrations than the router's queue holds (101) were made after it".into();
     ctx.assumptions.push("one stall mechanism (a non-reading subscriber); the failure mode is a deterministic dead-lock, so the deadline is not a race".into());
     let env = match Env::new() {
         Ok(e) => e,
